@@ -96,11 +96,13 @@ class Ctx:
         self.notes = {}
         self.divcache = {}
         self.asserted = []
+        self.var_bound = {}  # name -> max |value| of a declared input variable (None when unbounded)
 
     # ---- variables and assumptions
     def int_var(self, name, lo=None, hi=None):
         p = Poly.var(name)
         self.base_vars.append(name)
+        self.var_bound[name] = max(abs(lo), abs(hi)) if lo is not None and hi is not None else None
         if lo is not None:
             self._add(zvar(name) >= lo)
             if lo > 0:
